@@ -17,7 +17,8 @@
                must EQUAL the reference scan (K against the reference model). *)
 From Coq Require Import List NArith ZArith Bool Arith.
 From YV Require Import Gen.PatConsts Pat.Syntax Pat.Sem Pat.Matcher Pat.Modifiers Pat.MatchList.
-From YV Require Export Pat.Base64 Pat.Atoms Pat.Pipeline.
+From YV Require Export Pat.Base64 Pat.Atoms Pat.Pipeline Pat.ChainRun.
+From YV Require Import Pat.Chain.
 Import ListNotations.
 Local Open Scope N_scope.
 
@@ -209,7 +210,10 @@ Inductive case :=
    reported matches.  anchored: the condition only asks for `$a at N`, so the
    pattern may be searched at that offset only (no completeness promised). *)
 | PipeCase (p : pat) (sps : list subpat) (atoms : list atom) (anchored : bool)
-           (d : bytes) (reported : list triple).
+           (d : bytes) (reported : list triple)
+(* stream (e): a pattern that the compiler splits into a chain of literal pieces
+   (jumps over the chaining threshold), with the REAL pieces and atoms *)
+| ChainCase (p : pat) (pieces : list cpiece) (atoms : list atom) (d : bytes) (reported : list triple).
 
 (* ---- stream (d) ------------------------------------------------------- *)
 Definition flags_eqb (a b : spflags) : bool :=
@@ -283,6 +287,108 @@ Definition pipe_check (p : pat) (sps : list subpat) (atoms : list atom) (d : byt
     forallb (fun t => existsb (triple_eqb t) cands) rep
   else list_eqb triple_eqb rep ml.
 
+(* ---- stream (e) ------------------------------------------------------- *)
+(* the top-level items of a pattern, one item per byte / jump / ... *)
+Fixpoint flat_items (r : re) : list re :=
+  match r with
+  | RCat a b => flat_items a ++ flat_items b
+  | REps => []
+  | x => [x]
+  end.
+Fixpoint lit_of_items (l : list re) : option bytes :=
+  match l with
+  | [] => Some []
+  | RCls (CByte b) :: t => match lit_of_items t with Some r => Some (b :: r) | None => None end
+  | _ => None
+  end.
+Definition cgap_of (g : gap) : cgap :=
+  match g_max g with Some m => GBounded (g_min g) m | None => GUnbounded (g_min g) end.
+Definition cgap_eqb (a b : cgap) : bool :=
+  match a, b with
+  | GBounded a1 a2, GBounded b1 b2 => Nat.eqb a1 b1 && Nat.eqb a2 b2
+  | GUnbounded a1, GUnbounded b1 => Nat.eqb a1 b1
+  | _, _ => false
+  end.
+
+(* what Chain.split_at_large_gaps (the model of re/hir.rs proved to keep the
+   language) says the pieces are, to be compared with the dumped ones: literal
+   bytes, link to the previous piece with its gap, LastInChain on the last *)
+Definition expected_pieces (p : pat) : option (list (bytes * option (nat * cgap) * bool)) :=
+  let r := match p with PHex r => Some r | PRegexp r m => if rm_wide m || rm_nocase m then None else Some r | PText _ _ => None end in
+  match r with
+  | None => None
+  | Some r =>
+      let '(h, t) := split_at_large_gaps (flat_items r) in
+      let n := length t in
+      match lit_of_items (flat_items h) with
+      | None => None
+      | Some hl =>
+          let tails := map (fun igp => let '(i, (g, pr)) := igp in
+                              match lit_of_items (flat_items pr) with
+                              | Some l => Some (l, Some (i, cgap_of g), Nat.eqb (S i) n)
+                              | None => None
+                              end) (combine (seq 0 n) t) in
+          if forallb (fun o => match o with Some _ => true | None => false end) tails
+          then Some ((hl, None, false) :: flat_map (fun o => match o with Some x => [x] | None => [] end) tails)
+          else None
+      end
+  end.
+
+Fixpoint list_eqb2 {A B} (eq : A -> B -> bool) (a : list A) (b : list B) : bool :=
+  match a, b with
+  | [], [] => true
+  | x :: a', y :: b' => eq x y && list_eqb2 eq a' b'
+  | _, _ => false
+  end.
+
+Definition piece_shape_eqb (c : cpiece) (e : bytes * option (nat * cgap) * bool) : bool :=
+  let '(l, link, last) := e in
+  bytes_eqb (cp_lit c) l && Bool.eqb (cp_last c) last &&
+  match cp_link c, link with
+  | None, None => true
+  | Some (a, g), Some (b, h) => Nat.eqb a b && cgap_eqb g h
+  | _, _ => false
+  end.
+
+Definition chain_atoms_ok (pieces : list cpiece) (atoms : list atom) : bool :=
+  forallb (fun i => match nth_error pieces i with
+                    | Some c => atoms_ok (mkSP (KLiteral (cp_lit c) None) (cp_flags c)) (0, 0) (atoms_of atoms i)
+                    | None => false
+                    end) (seq 0 (length pieces)) &&
+  forallb (fun a => Nat.ltb (a_sp a) (length pieces)) atoms.
+
+(* hits in the order of the offset where the atom ENDS, then atom index: the
+   order in which an automaton that consumes the data left to right reports them *)
+Definition hits_by_end (atoms : list atom) (d : bytes) : list hit :=
+  flat_map (fun e => flat_map (fun i => match nth_error atoms i with
+                                        | Some a =>
+                                            let len := length (a_bytes a) in
+                                            if Nat.leb len e && atom_at a d (e - len) then [(i, (e - len)%nat)] else []
+                                        | None => []
+                                        end) (seq 0 (length atoms)))
+           (seq 0 (S (length d))).
+
+(* hits in the order of the offset where the atom STARTS, then atom index: the
+   order of the vectorised kernel (lib/src/teddy), which looks at the positions of
+   a block in turn; the automaton used for short buffers and big rule sets reports
+   by END offset.  Which one runs depends on the CPU's vector width and on the rule
+   set, so both orders are accepted. *)
+Definition hits_by_start (atoms : list atom) (d : bytes) : list hit :=
+  flat_map (fun s => flat_map (fun i => match nth_error atoms i with
+                                        | Some a => if atom_at a d s then [(i, s)] else []
+                                        | None => []
+                                        end) (seq 0 (length atoms)))
+           (seq 0 (S (length d))).
+
+Definition chain_model (pieces : list cpiece) (atoms : list atom) (hits : list hit) (d : bytes) : list triple :=
+  map nat_triple (scan_chain pieces atoms hits d).
+
+Definition chain_check (p : pat) (pieces : list cpiece) (atoms : list atom) (d : bytes) (rep : list triple) : bool :=
+  (match expected_pieces p with Some e => list_eqb2 piece_shape_eqb pieces e | None => true end) &&
+  chain_atoms_ok pieces atoms &&
+  (if list_eqb triple_eqb rep (chain_model pieces atoms (hits_by_start atoms d) d) then true
+   else list_eqb triple_eqb rep (chain_model pieces atoms (hits_by_end atoms d) d)).
+
 Fixpoint run_list (l : match_list) (adds : list (N * N * option N * bool)) : match_list * list bool :=
   match adds with
   | [] => (l, [])
@@ -307,6 +413,7 @@ Definition check_case (c : case) : bool :=
       list_eqb dump_eqb (model_dump p3 npids) dump
   | MLPanicCase _ => false
   | PipeCase p sps atoms _ d rep => pipe_check p sps atoms d rep
+  | ChainCase p pieces atoms d rep => chain_check p pieces atoms d rep
   | ScanCase p d mm panicked rep =>
       negb panicked &&
       (if limit_reached mm rep then
@@ -334,6 +441,7 @@ Definition spec_case (c : case) : bool :=
   | PipeCase p _ _ anchored d rep =>
       if anchored then sound_b p d (ref_scan p d) rep && ascending_b (map t_start rep)
       else scan_spec p d None rep
+  | ChainCase p _ _ d rep => scan_spec p d None rep
   end.
 
 (* which part of the specification fails on a scan case (bit mask; used only to
@@ -359,5 +467,14 @@ Definition diagnose (c : case) : N :=
       (match expected_sps p with Some e => if list_eqb sp_eqb sps e then 0 else 64 | None => 0 end) +
       (if all_atoms_ok p sps atoms then 0 else 128) +
       (if pipe_check p sps atoms d rep then 0 else 256)
+  (* stream (e): 64 the dumped pieces are not the ones the split model expects, 128 atoms_ok
+     false on the real atoms of a piece, 256 the chain model does not reproduce the reported list *)
+  | ChainCase p pieces atoms d rep =>
+      let rs := ref_scan p d in
+      (if sound_b p d rs rep then 0 else 2) + (if ascending_b (map t_start rep) then 0 else 4) +
+      (if complete_b p d rs rep then 0 else 8) +
+      (match expected_pieces p with Some e => if list_eqb2 piece_shape_eqb pieces e then 0 else 64 | None => 0 end) +
+      (if chain_atoms_ok pieces atoms then 0 else 128) +
+      (if chain_check p pieces atoms d rep then 0 else 256)
   | _ => 32
   end.
